@@ -33,8 +33,26 @@ let detail n c =
     str_ints [zi (st_code q.st); zi q.tasks; zi q.acts; zi q.sent; zi q.recv; zi q.ncl; zi q.acc_s; zi q.acc_r;
               zi q.last_s; zi q.last_r; zi q.cbs; zi q.infl; zi q.inproc]) ps)
   ^ " n=" ^ string_of_int (List.length c.net) ^ " q=" ^ string_of_int (List.length c.dlyq)
+(* "mpi np mode nt cores": the program of harness/h_term4c_mpi.jdf as a schedule of the model: PROD(k) on rank
+   k mod np sends one activation to rank (k+1) mod np, which receives it, runs CONS(k) and finishes; every
+   message is counted sent once and received once; then everybody becomes idle and the channels are drained *)
+let mpi_line np nt =
+  let n i = nat_of_int i in
+  let pre = List.concat (List.init np (fun i -> [AActs (n i, z_of_int 1); AReady (n i)])) in
+  let body = List.concat (List.init nt (fun k ->
+    let s = k mod np and d = (k + 1) mod np in
+    [ASend (n s, n d); ARecvStart (n d); ATasks (n d, z_of_int 1); ARecvEnd (n d); ATasks (n d, z_of_int (-1))])) in
+  let post = List.init np (fun i -> AActs (n i, z_of_int (-1))) in
+  let c = finish (run (init (n np)) (pre @ body @ post)) in
+  let ps = List.init np (fun i -> p c (n i)) in
+  let term = List.for_all (fun q -> zi (st_code q.st) = 5) ps in
+  let sent = List.fold_left (fun a q -> a + zi q.sent) 0 ps and recv = List.fold_left (fun a q -> a + zi q.recv) 0 ps in
+  Printf.sprintf "mpi term=%d ranks=%d sent=%d started=%d recv=%d cons=%d errors=0" (if term then 1 else 0) np sent recv recv nt
 let () =
   iter_cases Sys.argv.(1) (fun line ->
+    match words line with
+    | ["mpi"; np; _; nt; _] -> mpi_line (int_of_string np) (int_of_string nt)
+    | _ ->
     match split_on '|' line with
     | [ns; toks; fin] ->
       let n = int_of_string ns in
